@@ -54,7 +54,9 @@ def build(case):
         # a second examples block: other header names (reversed order / renamed), the very same row values
         hs2 = case["second_block"]
         header2 = {"id": gid(), "location": LOC, "cells": [{"location": LOC, "value": h} for h in hs2]}
-        row2 = {"id": gid(), "location": LOC, "cells": [{"location": LOC, "value": v} for v in vs]}
+        # ... or, with the columns listed in the other order, each column keeping its value (the same (header, value) pairs in another order)
+        vs2 = list(reversed(vs)) if case.get("second_block_swapped_values") and len(vs) == 2 else vs
+        row2 = {"id": gid(), "location": LOC, "cells": [{"location": LOC, "value": v} for v in vs2]}
         exs.append({"id": gid(), "tags": [], "location": LOC, "keyword": "Examples", "name": "", "description": "", "tableHeader": header2, "tableBody": [row2]})
     sc = {"scenario": {"id": gid(), "tags": [], "location": LOC, "keyword": "Scenario Outline", "name": " / ".join(ts), "description": "",
                        "steps": steps, "examples": exs}}
@@ -85,11 +87,14 @@ def check_interp(case, stats):
     if case.get("second_block"):
         hs2 = case["second_block"]
         p2 = pk[1 + len(more)]
+        vs_first = vs
+        vs = list(reversed(vs)) if case.get("second_block_swapped_values") and len(vs) == 2 else vs
         want2 = [literal(t, hs2, vs) for t in ts]
         got2 = [s_["text"] for s_ in p2["steps"][nbg:nbg + len(ts)]]
         if got2 != want2 or p2["name"] != literal(" / ".join(ts), hs2, vs):
             raise Violation(case, "second examples block (headers %r, same values %r): step texts %r name %r, literal substitution gives %r / %r" % (
                 hs2, vs, got2, p2["name"], want2, literal(" / ".join(ts), hs2, vs)))
+        vs = vs_first
     p = pk[0]
     L = lambda t: literal(t, hs, vs)
     exp_name = L(" / ".join(ts))
@@ -178,8 +183,10 @@ def unit_two_columns(a):
                             more = [["<" + h1 + ">", "<" + h2 + ">"], [v2, v1]]      # an identity row, then the values swapped
                         elif n % 4 == 1:
                             more = [[v1 + "|" + v2, "z"], [v1, v2 + "|z"]]             # rows that differ only in where a literal pipe falls
+                        pad = ("p" * 300 + " ") if n % 5 == 0 else ""     # long texts (a doc string, a pasted paragraph) with the same placeholders
                         yield {"sub": "interp", "headers": [h1, h2], "values": [v1, v2], "more_rows": more, "second_block": [h2, h1] if n % 3 == 0 else ([h1 + "q", h2] if n % 3 == 1 else None),
-                               "templates": ["<%s>" % h1, "<%s> <%s>" % (h2, h1), "<<%s>>" % h2, "x", "<%s><%s" % (h1, h2), "<%s><%s><%s>" % (h1, h1, h1), "<%s><%s><%s><%s>" % (h1, h2, h1, h2)]}
+                               "second_block_swapped_values": n % 2 == 0, "pad": pad,
+                               "templates": [pad + t for t in ["<%s>" % h1, "<%s> <%s>" % (h2, h1), "<<%s>>" % h2, "x", "<%s><%s" % (h1, h2), "<%s><%s><%s>" % (h1, h1, h1), "<%s><%s><%s><%s>" % (h1, h2, h1, h2), "<<%s>%s>" % (h1, h2), "<%s<%s>>" % (h1, h2)]]}
     sweep(stats, gen(), check_interp)
     return stats
 
